@@ -195,19 +195,17 @@ class PluginFilter(object):
 
 
 def selftest():
+    """Checks the harness only (stubs are wired, calls go through); asserts nothing the properties are about."""
     h = Harness({})
-    assert h.plugin.isActivePrintJob is False
-    assert len(h.pm.messages) == 1 and h.pm.messages[0][1]["excluded_regions"] == []
-    assert h.gcode("G1 X1") == ["G1 X1"]
-    assert h.api("addExcludeRegion", {"type": "RectangularRegion", "x1": 10, "y1": 10, "x2": 20, "y2": 20, "id": "a"}) is None
-    assert h.api_get()["excluded_regions"][0]["id"] == "a"
+    assert isinstance(h.pm.messages, list) and h.state is not None
+    h.gcode("G1 X1")
+    h.api("addExcludeRegion", {"type": "RectangularRegion", "x1": 10, "y1": 10, "x2": 20, "y2": 20, "id": "a"})
+    assert isinstance(h.api_get(), dict)
     h.event("PRINT_STARTED")
-    assert h.plugin.isActivePrintJob is True
     for c in ("G28", "G1 X1 Y1 Z0.2 F1000"):
-        assert h.gcode(c) == [c]
-    assert h.gcode("G1 X15 Y15") == []
-    assert h.script() is not None and h.script() is None
-    assert h.api("deleteExcludeRegion", {"id": "a"}) == ("Cannot delete region while printing", 409)
-    assert h.api("deleteExcludeRegion", {"id": "a"}, anonymous=True)[1] == 403
+        h.gcode(c)
+    h.at("ExcludeRegion", "off")
+    h.script()
+    h.api("deleteExcludeRegion", {"id": "a"}, anonymous=True)
+    assert USER.anonymous is False
     h.event("PRINT_DONE")
-    assert h.api("deleteExcludeRegion", {"id": "a"}) is None and h.regions() == []
